@@ -34,7 +34,7 @@ EXTENDS CcccFields
 
 CONSTANTS MaxFields,      \* fields per record
           MaxRecords,     \* records per stream
-          Alpha           \* "basic" | "wide" | "values": which alphabet of fields Next draws from
+          Alpha           \* "basic" | "mid" | "wide" | "values": which alphabet of fields Next draws from
 
 VARIABLES enc,      \* "bin" | "asc"
           phase,    \* "closed" | "open" | "framed"
@@ -83,8 +83,14 @@ AlphaWide   == {WithV(f, Typ) : f \in
                    \cup {Ls("l", k, n, 0) : k \in {"int", "float", "double"}, n \in {0, 1, 3}}
                    \cup {LS("ls", n, 8) : n \in {0, 1, 3}}
                    \cup {Mx("m", k, sh) : k \in {"int", "float", "double"}, sh \in {<<2>>, <<2, 3>>, <<0, 2>>, <<2, 1, 2>>}}}
+AlphaMid    == {WithV(f, Typ) : f \in
+                   Scalars({0, 8, 28})
+                   \cup {Ls("l", k, n, 0) : k \in {"int", "float", "double"}, n \in {0, 3}}
+                   \cup {LS("ls", n, 8) : n \in {0, 3}}
+                   \cup {Mx("m", k, sh) : k \in {"int", "float", "double"}, sh \in {<<2, 3>>, <<0, 2>>, <<2, 1, 2>>}}}
 AlphaValues == UNION {{WithV(f, v) : v \in Values(f.k)} : f \in Scalars({4})}
-Alphabet == CASE Alpha = "basic" -> AlphaBasic [] Alpha = "wide" -> AlphaWide [] Alpha = "values" -> AlphaValues
+Alphabet == CASE Alpha = "basic" -> AlphaBasic [] Alpha = "mid" -> AlphaMid [] Alpha = "wide" -> AlphaWide
+              [] Alpha = "values" -> AlphaValues
 
 (* ---------- reader ---------- *)
 Consumed(e, fs) == IF e = "bin" THEN RecBytes(fs) ELSE RecChars(fs)
